@@ -93,6 +93,14 @@ fn plants(rng: &mut Rng, per_cell: usize) -> Vec<Plant> {
             ("serde-flatten-second-attr", "struct-field", format!("#[typeshare]\npub struct Victim {{\n    pub ok: u8,\n    {sk}    #[serde(default)]\n    #[serde(flatten)]\n    pub bad: Fine,\n}}\n"), true),
             ("serde-flatten", "struct-variant-field", format!("#[typeshare]\n#[serde(tag = \"t\", content = \"c\")]\npub enum Victim {{\n    A,\n    B {{\n        ok: u8,\n        {sk}        #[serde(flatten)]\n        bad: Fine,\n    }},\n}}\n"), true),
         ];
+        // a data-carrying variant in an enum without tag/content: unsupported; under skip the rest is a plain unit enum
+        let structural: Vec<(&'static str, &'static str, String, bool)> = structural
+            .into_iter()
+            .chain(vec![
+                ("data-variant-in-untagged-enum", "variant", format!("#[typeshare]\npub enum Victim {{\n    A,\n    {sk}    B(u8),\n    C,\n}}\n"), true),
+                ("struct-variant-in-untagged-enum", "variant", format!("#[typeshare]\npub enum Victim {{\n    {sk}    B {{ x: u8 }},\n    A,\n}}\n"), true),
+            ])
+            .collect();
         for (c, p, s, skippable) in structural {
             v.push(Plant { construct: c, position: p, depth: 0, skip, source: format!("{BACKGROUND}{s}"), skippable });
         }
@@ -106,6 +114,8 @@ fn plants(rng: &mut Rng, per_cell: usize) -> Vec<Plant> {
         ("struct-variant-enum-without-tag-and-content", "#[typeshare]\npub enum Victim { A { x: u8 } }\n".into()),
         ("unit-enum-with-tag", "#[typeshare]\n#[serde(tag = \"t\")]\npub enum Victim { A, B }\n".into()),
         ("unit-enum-with-content", "#[typeshare]\n#[serde(content = \"c\")]\npub enum Victim { A, B }\n".into()),
+        // tag/content on an enum whose only data variants are skipped: what is shared is a unit enum
+        ("unit-enum-after-skips-with-tag-and-content", "#[typeshare]\n#[serde(tag = \"t\", content = \"c\")]\npub enum Victim { A, #[serde(skip)] B(u8), #[typeshare(skip)] C { x: u8 } }\n".into()),
         ("unit-enum-with-tag-and-content", "#[typeshare]\n#[serde(tag = \"t\", content = \"c\")]\npub enum Victim { A, B }\n".into()),
         ("const-string", "#[typeshare]\npub const VICTIM: &str = \"text\";\n".into()),
         ("const-float", "#[typeshare]\npub const VICTIM: f64 = 1.5;\n".into()),
